@@ -11,6 +11,20 @@ COMMON_TB = [
 NOT_CLAIMED_REASON = {}
 
 PROPS = {
+    "C06": {
+        "modules": ["AidlVerif.Props.C06"],
+        "theorems": ["Aidl.Props.C06.checkImports_spec", "Aidl.Props.C06.checkDecls_spec", "Aidl.Props.C06.resolved_is_deep", "Aidl.Props.C06.holds"],
+        "suites": ["proj", "dirs"],
+        "keys": {"corr": ["C06"], "spec": ["C06"], "assume": ["C06"], "outcome": True},
+        "trusted_base": COMMON_TB,
+        "assumptions": [
+            "hypothesis `Fresh` of Props.C06.holds (no diagnostic of another step sits on an import / declaration statement range) is decidable and evaluated on every case",
+            "a declaration conflicting with several imports points to the one with the smallest qualified name (the repaired code's deterministic choice)",
+        ],
+        "level_text": "Theorems (all import lists, all declaration lists, all resolved sets, all defined sets, ALL hash orders): `check_imports` keeps the FIRST occurrence of each qualified name, flags every repeat with an Error pointing back to the first, and pushes — as a multiset independent of the hash order — one 'unresolved' or 'unused' Warning per first occurrence exactly as specified (`checkImports_spec`); the same for forward declarations: conflict with an import, repeat, unused (name range) or usage (full range) (`checkDecls_spec`); the `resolved` set they consult is the set of keys of ALL type nodes at any depth of the validated tree (`resolved_is_deep`); `holds`: the diagnostics sitting on import/declaration statements of any validated file are exactly the specified multiset of (severity, range, range pointed back to).",
+        "level_note": "Trusted: Lean kernel (+ propext, Classical.choice, Quot.sound), the hand-written model of check_imports / check_declared_parcelables tied to the code by the correspondence run, the harness.",
+        "rule": "suite proj: random multi-file projects with import lists (project keys, near misses, unresolvable, built-in, duplicates) and forward-declaration lists (qualified/unqualified, duplicated, shadowed by imports, built-in names) and references at depth <= 3; suite dirs: fixed prelude with every kind of import. distinct = distinct input digest; non-trivial = at least one import or declaration",
+    },
     "C08": {
         "modules": ["AidlVerif.Props.C08"],
         "theorems": ["Aidl.Props.C08.container_rule", "Aidl.Props.C08.checkContainers_eq", "Aidl.Props.C08.holds"],
